@@ -21,6 +21,9 @@ this working copy is written; repo-src/ and the committed generated files are ne
       expected  : a translator refuses (exit 3) OR a proof module no longer builds                   -> "caught"
       a seeded breaking patch none of whose hunks lies in a region the translators read is "n/a"
       (computed from the diff: see `relevant`).
+  Breaking edits ON TOP OF a harmless rewrite (HAND_ON) check that every construct accepted for the sake of a harmless patch
+  is still looked into: each of them must end in "caught", and the ones about the second batch of harmless patches
+  (`H+B1b4-…` … `H+B2b6-…`) are all caught by a failing proof, not by a refusal.
 Rows whose expectation differs from the default are listed, with the reason, in KNOWN.
 """
 import os, re, shutil, subprocess, sys, tempfile, time
@@ -33,7 +36,9 @@ PRISTINE = os.path.join(ROOT, 'repo-src') if os.path.isdir(os.path.join(ROOT, 'r
 SEEDED = os.path.join(ROOT, 'seeded')
 CRYPTO = 'src/crypto/src/'
 
-HARMLESS = ['B1-b1', 'B1-b2', 'B1-b3', 'B2-b1', 'B2-b2', 'B2-b3', 'B3-b1', 'B3-b2', 'B3-b3', 'B5-b1', 'B5-b2']
+HARMLESS = ['B1-b1', 'B1-b2', 'B1-b3', 'B2-b1', 'B2-b2', 'B2-b3', 'B3-b1', 'B3-b2', 'B3-b3', 'B5-b1', 'B5-b2',
+            # second batch (control-flow / data-flow rewrites)
+            'B1-b4', 'B1-b5', 'B1-b6', 'B2-b4', 'B2-b5', 'B2-b6', 'B5-b4', 'B5-b5']
 BREAKING_FILES = {CRYPTO + f for f in ('encrypt.rs', 'decrypt.rs', 'errors.rs', 'scrypt.rs')}
 
 # hand-made breaking edits: (name, file, what, [(old, new)]) -- every `old` must occur exactly once in the file
@@ -114,6 +119,24 @@ HARMLESS_HAND = [
        '        write_record(ciphertext, &chunk_header, ct.as_slice())?;\n'),
       ('/// Verification hook: [`encrypt_chunks`]', 'fn write_record<U: Write>(ciphertext: &mut U, header: &[u8], body: &[u8]) -> Result<(), EncryptError> {\n'
        '    ciphertext.write_all(header).map_err(write_err)?;\n    ciphertext.write_all(body).map_err(write_err)?;\n    ciphertext.flush().map_err(write_err)?;\n    Ok(())\n}\n\n/// Verification hook: [`encrypt_chunks`]')]),
+    ('G-scr-split-at', SCR, 'last input block of block_mix taken with `split_at`',
+     [('    block_copy(tmp, &inn[(2*r-1)*16..], 16);\n', '    let (_head, last) = inn.split_at((2*r-1)*16);\n    block_copy(tmp, last, 16);\n')]),
+    ('G-enc-swap-use', ENC, 'buffers exchanged by `mem::swap` named through `use std::mem;`, arguments in the other order',
+     [('use std::io::{Read, Write};\n', 'use std::io::{Read, Write};\nuse std::mem;\n'),
+      ('        prev.clone_from(&buff);\n', '        mem::swap(&mut buff, &mut prev);\n')]),
+    ('G-dec-match-wild', DEC, 'format test of key_decrypt as a `match` with an unbraced `return` arm and a `_` arm',
+     [('    let file_format = valid_file_format(&prologue)?;\n    if file_format == FileFormat::PassV1 {\n        return Err(DecryptError::Other(\n'
+       '            "This is a password encrypted file. Try password decrypt instread.".into(),\n        ));\n    }\n',
+       '    match valid_file_format(&prologue)? {\n        FileFormat::PassV1 => return Err(DecryptError::Other("wrong kind".into())),\n        _ => {}\n    }\n')]),
+    ('G-dec-match-var', DEC, 'format test of pass_decrypt as a `match` on the bound variable',
+     [('    if file_format == FileFormat::AsymV1 {\n        return Err(DecryptError::Other(\n'
+       '            "This is a key encrypted file. Try decrypt instread.".into(),\n        ));\n    }\n',
+       '    match file_format {\n        FileFormat::AsymV1 => {\n            return Err(DecryptError::Other("wrong kind".into()));\n        }\n        FileFormat::PassV1 => {}\n    }\n')]),
+    ('G-dec-split-mut', DEC, 'decrypt side: the AAD trailer filled through `split_at_mut`',
+     [('        auth_data[aad_len..aad_len + 4].copy_from_slice(&last_chunk_indicator_bytes);\n        auth_data[aad_len + 4..].copy_from_slice(&ciphertext_length_bytes);\n',
+       '        let (f1, f2) = auth_data[aad_len..].split_at_mut(4);\n        f1.copy_from_slice(&last_chunk_indicator_bytes);\n        f2.copy_from_slice(&ciphertext_length_bytes);\n')]),
+    ('G-enc-deferred-len', ENC, 'length field declared by a deferred `let` and assigned on the next line',
+     [('        let ciphertext_length: u32 = prev_read as u32;\n', '        let ciphertext_length: u32;\n        ciphertext_length = prev_read as u32;\n')]),
     ('G-scr-mask-hoist', SCR, 'mask computed once per smix call',
      [('    let R = 32 * r;\n', '    let R = 32 * r;\n    let mask = (N - 1) as u64;\n'),
       ('        let j = (integer(x, r) & u64::from((N - 1) as u64)) as usize;', '        let j = (integer(x, r) & mask) as usize;'),
@@ -122,7 +145,9 @@ HARMLESS_HAND = [
 
 # breaking edits ON TOP OF a harmless patch: (name, harmless patch, file, what, [(old, new)]).  They exercise the constructs the
 # harmless rewrites introduce (helper functions, named constants, hoisted statements, `&mut` slice bindings, final-expression
-# returns, `u32::from(bool)`, iterator loops): being robust to a rewrite must not mean being blind inside it.
+# returns, `u32::from(bool)`, iterator loops; second batch: `std::mem::swap`, deferred `let`, `match` with block arms on an
+# `Option` / on an enum, per-iteration flags, `split_at` / `split_at_mut`, const-generic helpers): being robust to a rewrite must
+# not mean being blind inside it.
 HAND_ON = [
     ('H+B1b1-helper-range', 'B1-b1', ENC, 'extracted helper writes the flag to bytes 8..11',
      [('    chunk_header[8..12].copy_from_slice(&last_chunk_indicator_bytes);', '    chunk_header[8..11].copy_from_slice(&last_chunk_indicator_bytes);')]),
@@ -152,19 +177,95 @@ HAND_ON = [
     ('H+B5b1-xor-assign', 'B5-b1', SCR, '`*d ^= s` -> `*d = *s`', [('        *d ^= s;', '        *d = *s;')]),
     ('H+B5b2-words', 'B5-b2', SCR, 'BLOCK_WORDS = BLOCK_BYTES / 8', [('const BLOCK_WORDS: usize = BLOCK_BYTES / 4;', 'const BLOCK_WORDS: usize = BLOCK_BYTES / 8;')]),
     ('H+B5b2-mask', 'B5-b2', SCR, 'hoisted mask is N', [('    let mask = (N - 1) as u64;', '    let mask = N as u64;')]),
+    # round 2: the loop forms / constructs accepted for B5-b4 (unit-stride loops over pairs with rescaled offsets; the proofs
+    # take counts and offsets as variables tied to their values by arithmetic side goals) and B5-b5 (`split_at_mut`,
+    # `for lane in b.chunks_exact_mut(k)`); each of these must be caught BY A FAILING PROOF (see PROOF_ONLY)
+    ('H+B5b4-rounds-3', 'B5-b4', SCR, 'three double rounds (Salsa20/6)', [('    for _ in 0..4 {', '    for _ in 0..3 {')]),
+    ('H+B5b4-mix-read', 'B5-b4', SCR, 'block_mix reads the odd block of a pair 8 words early', [('&inn[i*32+16..]', '&inn[i*32+8..]')]),
+    ('H+B5b4-mix-write', 'B5-b4', SCR, 'block_mix writes the odd half at r*8', [('&mut out[i*16+r*16..]', '&mut out[i*16+r*8..]')]),
+    ('H+B5b4-mix-count', 'B5-b4', SCR, 'block_mix runs 2r pair iterations', [('    for i in 0..r {', '    for i in 0..2*r {')]),
+    ('H+B5b4-fill-odd', 'B5-b4', SCR, 'second table entry of a pair stored at (2i+2)*R', [('&mut v[(2 * i + 1) * R..]', '&mut v[(2 * i + 2) * R..]')]),
+    ('H+B5b4-fill-unscaled', 'B5-b4', SCR, 'first table entry of a pair stored at i*R (index not rescaled)', [('&mut v[2 * i * R..]', '&mut v[i * R..]')]),
+    ('H+B5b4-fill-count', 'B5-b4', SCR, 'table filled by N/4 pair iterations', [('    for i in 0..N / 2 {', '    for i in 0..N / 4 {')]),
+    ('H+B5b4-mixv-count', 'B5-b4', SCR, 'second smix loop runs N pair iterations', [('    for _ in 0..N / 2 {', '    for _ in 0..N {')]),
+    ('H+B5b5-split-point', 'B5-b5', SCR, '`split_at_mut` at 16*r (x too short, y too long)', [('xy.split_at_mut(32 * r)', 'xy.split_at_mut(16 * r)')]),
+    ('H+B5b5-buffer-short', 'B5-b5', SCR, 'the split buffer has 48*r words (y too short)', [('vec![0u32; 64 * r]', 'vec![0u32; 48 * r]')]),
+    ('H+B5b5-chunk-size', 'B5-b5', SCR, 'lanes of 64*r bytes', [('b.chunks_exact_mut(128 * r)', 'b.chunks_exact_mut(64 * r)')]),
+    ('H+B5b5-lane-args', 'B5-b5', SCR, 'smix called on a lane with r and n swapped', [('smix(lane, r, n, &mut v, x, y);', 'smix(lane, n, r, &mut v, x, y);')]),
+    ('H+Gsplit-at-point', 'G-scr-split-at', SCR, '`split_at` one block early', [('inn.split_at((2*r-1)*16)', 'inn.split_at((2*r-2)*16)')]),
+    ('H+Gsplit-at-half', 'G-scr-split-at', SCR, 'the wrong half of `split_at` is used', [('    block_copy(tmp, last, 16);\n', '    block_copy(tmp, _head, 16);\n')]),
+    ('H+Gcommute-16', 'G-scr-commute', SCR, 'commuted block size is r * 16', [('    let R = r * 32;\n', '    let R = r * 16;\n')]),
     ('H+Gwrite-swapped', 'G-enc-write-helper', ENC, 'the extracted write helper writes the body before the header',
      [('    ciphertext.write_all(header).map_err(write_err)?;\n    ciphertext.write_all(body).map_err(write_err)?;\n',
        '    ciphertext.write_all(body).map_err(write_err)?;\n    ciphertext.write_all(header).map_err(write_err)?;\n')]),
     ('H+Gwrite-noflush', 'G-enc-write-helper', ENC, 'the extracted write helper does not flush',
      [('    ciphertext.write_all(body).map_err(write_err)?;\n    ciphertext.flush().map_err(write_err)?;\n    Ok(())', '    ciphertext.write_all(body).map_err(write_err)?;\n    Ok(())')]),
     ('H+Gprobe-ignored', 'G-dec-probe-helper', DEC, 'the extracted probe helper reports 0 whatever it read', [('    Ok(check)\n', '    Ok(0)\n')]),
+    # ---- misuse of the constructs accepted for the second batch (each must be caught by a failing proof, not by a refusal)
+    # `std::mem::swap`
+    ('H+B1b4-swap-wrong-pair', 'B1-b4', ENC, 'the look-ahead buffer is exchanged with `auth_data` instead of `prev`',
+     [('        std::mem::swap(&mut prev, &mut buff);\n', '        std::mem::swap(&mut auth_data, &mut buff);\n')]),
+    ('H+B1b4-stale-read', 'B1-b4', ENC, 'the sealed slice is taken from the exchanged read buffer (stale bytes become observable)',
+     [('&auth_data, &prev[..prev_read]);', '&auth_data, &buff[..prev_read]);')]),
+    ('H+B1b4-swap-late', 'B1-b4', ENC, 'the buffers are exchanged before the chunk is sealed (the look-ahead chunk is sealed instead of the previous one)',
+     [('        std::mem::swap(&mut prev, &mut buff);\n', ''),
+      ('        let ct = chapoly_encrypt_noise(', '        std::mem::swap(&mut prev, &mut buff);\n        let ct = chapoly_encrypt_noise(')]),
+    # deferred `let`, `match` on an `Option` with a block arm, merged `let`s, inlined argument
+    ('H+B1b5-some-ignored', 'B1-b5', ENC, 'the `Some` arm ignores the supplied payload key and initialises the deferred binding itself',
+     [('        Some(pk) => pk,\n', '        Some(_pk) => {\n            generated_payload_key = PayloadKey::new(secure_random(32).as_slice());\n'
+       '            &generated_payload_key\n        }\n')]),
+    ('H+B1b5-hkdf-args', 'B1-b5', ENC, 'merged `Zeroizing::new(hkdf_sha256(..))` with salt and key material exchanged',
+     [('        &[],\n        payload_key.as_bytes(),\n        &noise_message.handshake_hash,\n        32,\n    ));',
+       '        payload_key.as_bytes(),\n        &[],\n        &noise_message.handshake_hash,\n        32,\n    ));')]),
+    ('H+B1b5-aad-prologue', 'B1-b5', ENC, 'the inlined AAD of pass_encrypt is the key-mode magic',
+     [('        &PASS_FILE_MAGIC,\n        CHUNK_SIZE,', '        &PROLOGUE,\n        CHUNK_SIZE,')]),
+    # per-iteration `done`, guard with early return, `split_at_mut`
+    ('H+B1b6-guard-or', 'B1-b6', ENC, '`&&` -> `||` in the rewritten unexpected-data guard',
+     [('if prev_read == 0 && num_read != 0 {', 'if prev_read == 0 || num_read != 0 {')]),
+    ('H+B1b6-done-prev', 'B1-b6', ENC, 'per-iteration `done` computed from the previous read', [('let done = num_read == 0;', 'let done = prev_read == 0;')]),
+    ('H+B1b6-split-3', 'B1-b6', ENC, '`split_at_mut(3)`: wrong split point of the AAD trailer', [('.split_at_mut(4);', '.split_at_mut(3);')]),
+    ('H+B1b6-fields-swapped', 'B1-b6', ENC, 'the two halves of `split_at_mut` bound in the other order',
+     [('let (indicator_field, length_field) =', 'let (length_field, indicator_field) =')]),
+    ('H+B1b6-split-base', 'B1-b6', ENC, '`split_at_mut` applied to the whole of `auth_data` (the AAD prefix is overwritten)',
+     [('auth_data[aad_len..].split_at_mut(4);', 'auth_data[..].split_at_mut(4);')]),
+    # const-generic helper
+    ('H+B2b4-header-12', 'B2-b4', DEC, 'chunk header read as `[u8; 12]` through the const-generic helper',
+     [('let chunk_header: [u8; 16] = read_array(ciphertext)?;', 'let chunk_header: [u8; 12] = read_array(ciphertext)?;')]),
+    ('H+B2b4-salt-16', 'B2-b4', DEC, 'salt read as `[u8; 16]` through the const-generic helper',
+     [('let salt: [u8; 32] = read_array(ciphertext)?;', 'let salt: [u8; 16] = read_array(ciphertext)?;')]),
+    ('H+B2b4-helper-read', 'B2-b4', DEC, 'the const-generic helper uses `read` instead of `read_exact`',
+     [('    reader.read_exact(&mut bytes).map_err(read_err)?;\n    Ok(bytes)', '    reader.read(&mut bytes).map_err(read_err)?;\n    Ok(bytes)')]),
+    ('H+B2b4-helper-errclass', 'B2-b4', DEC, 'the const-generic helper maps a read failure with write_err',
+     [('    reader.read_exact(&mut bytes).map_err(read_err)?;\n    Ok(bytes)', '    reader.read_exact(&mut bytes).map_err(write_err)?;\n    Ok(bytes)')]),
+    # `match` statement with block arms
+    ('H+B2b5-arms-swapped', 'B2-b5', DEC, 'key_decrypt: the arms of the format `match` exchanged (PassV1 accepted, AsymV1 rejected)',
+     [('        FileFormat::AsymV1 => {}\n        FileFormat::PassV1 => {\n', '        FileFormat::PassV1 => {}\n        FileFormat::AsymV1 => {\n')]),
+    ('H+B2b5-pass-arms-swapped', 'B2-b5', DEC, 'pass_decrypt: the arms of the format `match` exchanged',
+     [('        FileFormat::PassV1 => {}\n        FileFormat::AsymV1 => {\n', '        FileFormat::AsymV1 => {}\n        FileFormat::PassV1 => {\n')]),
+    ('H+B2b5-ok-instead', 'B2-b5', DEC, 'pass_decrypt: the rejecting arm returns `Ok(())`',
+     [('            return Err(DecryptError::Other(\n                "This is a key encrypted file. Try decrypt instread.".into(),\n            ));\n', '            return Ok(());\n')]),
+    # `split_at`, one copy into the AAD, moved before the body read
+    ('H+B2b6-split-7', 'B2-b6', DEC, '`chunk_header.split_at(7)`: wrong split point', [('chunk_header.split_at(8);', 'chunk_header.split_at(7);')]),
+    ('H+B2b6-split-3', 'B2-b6', DEC, '`chunk_fields.split_at(3)`: wrong split point', [('chunk_fields.split_at(4);', 'chunk_fields.split_at(3);')]),
+    ('H+B2b6-fields-swapped', 'B2-b6', DEC, 'indicator and length bound to the wrong halves',
+     [('let (last_chunk_indicator_bytes, ciphertext_length_bytes) =', 'let (ciphertext_length_bytes, last_chunk_indicator_bytes) =')]),
+    ('H+B2b6-counter-authenticated', 'B2-b6', DEC, 'the wrong half of the header (the unused counter) is authenticated and parsed',
+     [('let (_chunk_counter, chunk_fields) = chunk_header.split_at(8);', 'let (chunk_fields, _chunk_counter) = chunk_header.split_at(8);')]),
+    ('H+B2b6-copy-dropped', 'B2-b6', DEC, 'the single copy of the header fields into the AAD is dropped',
+     [('        auth_data[aad_len..].copy_from_slice(chunk_fields);\n', '')]),
+    ('H+B2b6-copy-counter', 'B2-b6', DEC, 'the chunk counter bytes are copied into the AAD instead of the header fields',
+     [('        auth_data[aad_len..].copy_from_slice(chunk_fields);\n', '        auth_data[aad_len..].copy_from_slice(_chunk_counter);\n')]),
 ]
 
 # rows whose expected outcome is not the default: name -> (expected outcome, why)
 KNOWN = {
-    'G-scr-commute': ('FALSE-ALARM', 'the scrypt loop lemmas are stated for bounds written `32 * r` and are used by syntactic rewriting; '
-                      'a commuted product `r * 32` is not brought to that form (no AC-normalisation of index arithmetic)'),
 }
+
+# breaking rows that must be caught by a failing proof (outcome `proof-fails`), not by a refusal of the translator: they misuse a
+# construct the translators accept on purpose
+PROOF_ONLY = {'H+B5b4-rounds-3', 'H+B5b4-mix-read', 'H+B5b4-mix-write', 'H+B5b4-mix-count', 'H+B5b4-fill-odd', 'H+B5b4-fill-unscaled',
+              'H+B5b4-fill-count', 'H+B5b4-mixv-count', 'H+B5b5-split-point', 'H+B5b5-buffer-short', 'H+B5b5-chunk-size',
+              'H+B5b5-lane-args', 'H+Gcommute-16', 'H+Gsplit-at-point', 'H+Gsplit-at-half'}
 
 TRANSLATORS = [('stream', 'rs2lean_stream.py', 'GeneratedStream.lean'), ('scrypt', 'rs2lean_scrypt.py', 'GeneratedScrypt.lean')]
 
@@ -347,6 +448,7 @@ def main():
                 v = verdict(c.kind, r['outcome']) if r['outcome'] != 'ERROR' else 'ERROR'
                 exp = KNOWN.get(c.name, (('pass' if c.kind == 'harmless' else 'caught'),))[0]
                 ok = v == exp or (exp == 'caught' and v in ('n/a',)) or (exp == 'caught' and v == 'caught(gen)' and False)
+                if c.name in PROOF_ONLY and r['outcome'] != 'proof-fails': ok = False
                 if not ok: bad += 1
                 what = f' [{c.what}]' if c.what else ''
                 secs = f' ({r["secs"]:.0f}s)' if 'secs' in r else ''
